@@ -83,6 +83,7 @@ func verifOpenL(rows []verifRecL) (*File, bool) {
 
 func VerifH_C08_wholeFileSeekRead() {
 	vUnwind(1 << 16)
+	vAbstractCRCFixedWidth() // page checksums are not the subject
 	const n = 5
 	rows := verifRowsL(n)
 	f, ok := verifOpenL(rows)
@@ -124,6 +125,7 @@ func VerifH_C08_wholeFileSeekRead() {
 // the rows of one row group and the pages of one column across row groups
 func VerifH_C08_wholeFileRowGroupAndColumnSeeks() {
 	vUnwind(1 << 16)
+	vAbstractCRCFixedWidth() // page checksums are not the subject
 	const n = 5
 	rows := verifRowsL(n)
 	f, ok := verifOpenL(rows)
@@ -202,4 +204,120 @@ func VerifH_C08_wholeFileRowGroupAndColumnSeeks() {
 		Release(p)
 	}
 	vCover("column pages")
+}
+
+// After Reset the reader is at row 0 again, whatever it had read before; a
+// SeekToRow that follows (including to the row the reader was at before the
+// Reset) positions it like on a fresh reader.
+func VerifH_C08_seekAfterReset() {
+	vUnwind(1 << 16)
+	vAbstractCRCFixedWidth() // page checksums are not the subject
+	const n = 5
+	rows := verifRowsL(n)
+	f, ok := verifOpenL(rows)
+	if !ok {
+		return
+	}
+	r := NewGenericReader[verifRecL](f)
+	defer r.Close()
+	first := make([]verifRecL, vChoose("readBeforeReset", 0, 3))
+	if len(first) > 0 {
+		if got, err := r.Read(first); got != len(first) || (err != nil && err != io.EOF) {
+			vAssert(false, "rows are read before the reset")
+			return
+		}
+	}
+	r.Reset()
+	next := 0
+	if vChoose("seekAfterReset", 0, 1) == 1 {
+		k := vChoose("seekTo", 0, n-1)
+		if err := r.SeekToRow(int64(k)); err != nil {
+			vAssert(false, "seek after Reset succeeds")
+			return
+		}
+		next = k
+	}
+	out := make([]verifRecL, 2)
+	got, err := r.Read(out)
+	vAssert(err == nil || err == io.EOF, "read after Reset reports no error")
+	want := 2
+	if next+want > n {
+		want = n - next
+	}
+	vAssert(got == want, "read after Reset returns the rows that remain")
+	for i := 0; i < got && next+i < n; i++ {
+		vAssert(verifSameL(&out[i], &rows[next+i]), "after Reset and SeekToRow(k) rows come back from row k on")
+	}
+	vCover("reset")
+}
+
+// Forward-only seeking on converted row readers (ConvertRowReader wraps any
+// RowReader in a seeker that skips rows while reading): after SeekToRow(k) the
+// rows come back from row k on, whatever the batch size and however the source
+// chunks its rows.
+
+type verifSliceRows struct {
+	rows  []Row
+	chunk int
+	pos   int
+}
+
+func (r *verifSliceRows) ReadRows(out []Row) (int, error) {
+	n := 0
+	for n < len(out) && n < r.chunk && r.pos < len(r.rows) {
+		out[n] = append(out[n][:0], r.rows[r.pos]...)
+		r.pos++
+		n++
+	}
+	if r.pos == len(r.rows) {
+		return n, io.EOF
+	}
+	return n, nil
+}
+
+func VerifH_C08_forwardSeekOnConvertedRows() {
+	vUnwind(4096)
+	const n = 5
+	schema := SchemaOf(verifRecM{})
+	var src []Row
+	keys := make([]int64, n)
+	for i := 0; i < n; i++ {
+		keys[i] = vI64("key")
+		src = append(src, schema.Deconstruct(nil, &verifRecM{Key: keys[i], Tag: int32(i)}))
+	}
+	conv, err := Convert(schema, schema)
+	if err != nil {
+		vAssert(false, "identity conversion")
+		return
+	}
+	rr := ConvertRowReader(&verifSliceRows{rows: src, chunk: vChoose("sourceChunk", 1, 4)}, conv)
+	seeker, ok := rr.(RowSeeker)
+	if !ok {
+		vAssert(false, "converted rows can seek")
+		return
+	}
+	next := 0
+	for op := 0; op < 3; op++ {
+		if vChoose("op", 0, 1) == 0 {
+			k := vChoose("seekTo", next, n) // forward only
+			if err := seeker.SeekToRow(int64(k)); err != nil {
+				vAssert(false, "forward seek succeeds")
+				return
+			}
+			next = k
+			continue
+		}
+		batch := make([]Row, vChoose("batch", 1, 4))
+		got, err := rr.ReadRows(batch)
+		vAssert(err == nil || err == io.EOF, "read reports no error")
+		vAssert(next+got <= n, "no more rows than remain")
+		for i := 0; i < got && next+i < n; i++ {
+			vAssert(len(batch[i]) == 2 && batch[i][0].Int64() == keys[next+i] && batch[i][1].Int32() == int32(next+i), "rows come back from the target row on")
+		}
+		if got == 0 && err == nil {
+			vAssert(false, "a read makes progress or reports the end")
+		}
+		next += got
+	}
+	vCover("forward seek")
 }
